@@ -69,27 +69,29 @@ const (
 
 // size of digests in bytes
 var digestSize = []uint8{
+	// a digest is one element of the scalar field of the curve
 	MIMC_BN254:     32,
-	MIMC_BLS12_381: 48,
-	MIMC_BLS12_377: 48,
-	MIMC_BW6_761:   96,
-	MIMC_BLS24_315: 48,
-	MIMC_BLS24_317: 48,
-	MIMC_BW6_633:   80,
+	MIMC_BLS12_381: 32,
+	MIMC_BLS12_377: 32,
+	MIMC_BW6_761:   48,
+	MIMC_BLS24_315: 32,
+	MIMC_BLS24_317: 32,
+	MIMC_BW6_633:   40,
 	MIMC_GRUMPKIN:  32,
 
 	POSEIDON2_BN254:     32,
-	POSEIDON2_BLS12_381: 48,
-	POSEIDON2_BLS12_377: 48,
-	POSEIDON2_BW6_761:   96,
-	POSEIDON2_BLS24_315: 48,
-	POSEIDON2_BLS24_317: 48,
-	POSEIDON2_BW6_633:   80,
+	POSEIDON2_BLS12_381: 32,
+	POSEIDON2_BLS12_377: 32,
+	POSEIDON2_BW6_761:   48,
+	POSEIDON2_BLS24_315: 32,
+	POSEIDON2_BLS24_317: 32,
+	POSEIDON2_BW6_633:   40,
 	POSEIDON2_GRUMPKIN:  32,
 
-	POSEIDON2_KOALABEAR:  4,
-	POSEIDON2_BABYBEAR:   4,
-	POSEIDON2_GOLDILOCKS: 8,
+	// a digest is half a state: 8 elements of 4 bytes, resp. 4 elements of 8 bytes
+	POSEIDON2_KOALABEAR:  32,
+	POSEIDON2_BABYBEAR:   32,
+	POSEIDON2_GOLDILOCKS: 32,
 }
 
 // New initializes the hash function. This is a convenience function which does
